@@ -165,6 +165,12 @@ func c09(args []string) error {
 				if from == R {
 					from = 1
 				}
+				if rng.Intn(5) == 0 {
+					// a forged vote in the collector's OWN name (the peer id is whatever the sender claims): another replica's signature
+					// relabelled as R's
+					evs = append(evs, ev{"relabelled", R})
+					continue
+				}
 				evs = append(evs, ev{[]string{"dup", "wrongblock", "relabelled", "twosigners", "stale", "unknown", "outsider"}[rng.Intn(7)], from})
 			}
 			rng.Shuffle(len(evs), func(i, j int) { evs[i], evs[j] = evs[j], evs[i] })
